@@ -18,7 +18,7 @@ import numpy as np
 import core
 import gen
 
-PROOF_MODULES = ["UnytProofs.C19", "UnytProofs.Real.C19Allclose", "UnytProofs.Real.C19Affine", "UnytProofs.C19CompHelper"]
+PROOF_MODULES = ["UnytProofs.C19", "UnytProofs.Real.C19Allclose", "UnytProofs.Real.C19Affine", "UnytProofs.Real.C19AffineUnits", "UnytProofs.C19CompHelper"]
 
 # relative safety margin around the tolerance threshold: cases closer than this (in exact
 # arithmetic) are "borderline" — their verdict legitimately depends on floating-point rounding
@@ -179,7 +179,7 @@ def broadcast(a, b):
     return None
 
 
-def spec_allclose(actual, desired, rtol, atol, bare_tol_unit=None, elems=None):
+def spec_allclose(actual, desired, rtol, atol, bare_tol_unit=None, elems=None, atol_si_override=None):
     """The documented contract on exact rationals.  Returns (verdict, borderline, note) where
     verdict ∈ {True, False, 'RuntimeError', 'shape', None}; None = outside the contract's domain.
     Offset (temperature-scale) units are inside the domain when the comparison is affine-invariant:
@@ -213,6 +213,8 @@ def spec_allclose(actual, desired, rtol, atol, bare_tol_unit=None, elems=None):
     else:
         tdim, tscale = bare_tol_unit if bare_tol_unit is not None else desired.unit_for_bare_tol()
         t = F(atol.val) * tscale
+    if atol_si_override is not None:  # the SI size a suspected reading gives atol (classification only)
+        t = atol_si_override
     pairs = broadcast(sa, sd)
     if pairs is None:
         return "shape", False, "shapes do not broadcast"
@@ -463,6 +465,11 @@ def run(tier, seed):
             a = Arg(a.kind, [rng.uniform(250, 350) for _ in a.vals], ua)
             d = Arg(d.kind, [float(unyt.unyt_quantity(v, ua.name).to(ud.name).d) * (1 + rng.choice([0.0, 1e-9, 1e-3])) for v in (a.vals if len(d.vals) == len(a.vals) else a.vals[:1] * len(d.vals))], ud)
             argmode = "offset-units"
+            if rng.random() < 0.5:  # rtol = 0: the affine-invariant comparison, inside the direct oracle
+                rk, rtol_si = "zero", 0.0
+            if tk == "qty":  # a temperature difference in a zero-offset unit
+                ut = rng.choice([u for u in temp_units if u.offset == 0])
+                atol_si = rng.uniform(0.5, 5.0) * 10 ** rng.randint(-3, 0)
         bare_unit_dim, bare_unit_scale = d.unit_for_bare_tol()
         if rk == "bare" or rk == "zero" or rk == "default":
             rtol = Tol(rtol_si)
@@ -532,6 +539,12 @@ def run(tier, seed):
                         if atol_suspect:
                             cands.append(("reads-rtol-by-bare-value", Tol(rtol.val), a.unit_for_bare_tol()))
                     alts = [(nm,) + spec_allclose(a, d, rt_, atol, bare_tol_unit=bu_)[:2] for nm, rt_, bu_ in cands]
+                    a_unit = a.unit if a.unit is not None else (a.units[0] if a.units else None)
+                    if atol.unit is not None and a_unit is not None and a_unit.offset != 0 and atol.unit.dim == a_unit.dim:
+                        # an atol quantity sent through in_units to a scale with a zero of its own is moved like a
+                        # point: its SI size becomes SI_u(atol) - SI_actual(0)
+                        t_point = (F(atol.val) - F(atol.unit.offset)) * F(atol.unit.scale) + F(a_unit.offset) * F(a_unit.scale)
+                        alts.append(("reads-qty-atol-as-point-on-offset-scale",) + spec_allclose(a, d, rtol, atol, atol_si_override=t_point)[:2])
                     for nm, alt, b2 in alts:  # a reading that decisively explains the verdict
                         if alt is not None and not b2 and alt == bool(got[1]):
                             why = nm
@@ -1238,5 +1251,11 @@ def witness_replay(chk, flags):
     chk.extra["witness_bare_atol"] = {"allclose_units(1 m, 150 cm, rtol=0, atol=0.6)": v1, "swapped": v2}
     if fixed is False and (v1, v2) != (True, False):
         chk.disagree("witness", f"bare_atol_witness predicts (True, False) on the unrepaired code, got {(v1, v2)}")
+    # C19_affine_atol_counterexample (kept finding reads-qty-atol-as-point-on-offset-scale)
+    v3 = bool(allclose_units(Q(0.0, "degC"), Q(0.5, "degC"), rtol=0, atol=Q(1.0, "K")))
+    chk.extra["witness_qty_atol_on_offset_scale"] = {"allclose_units(0 degC, 0.5 degC, rtol=0, atol=1 K)": v3}
+    if v3:
+        chk.disagree("witness", "C19_affine_atol_counterexample predicts False for allclose_units(0 degC, 0.5 degC, rtol=0, atol=1 K), got True: "
+                                "the finding is repaired — edit atolInActualUnit (.qty arm) and retire the counterexample")
     if fixed is True and (v1, v2) != (False, True):
         chk.disagree("witness", f"bare_atol_witness predicts (False, True) on the repaired code, got {(v1, v2)}")
